@@ -9,4 +9,5 @@ mkdir -p .build evidence
 (cd lean && lake build PsaDhcp PsaDhcp.Expect driver)
 cp /repo/go.sum harness/go.sum
 (cd harness && go1.26.8 test -c -tags verif -o /verif/.build/hx.test .)
+(cd /repo && go1.26.8 build -o /verif/.build/psa-dhcpc cmd/psa-dhcpc.go)
 echo setup-ok
